@@ -1,5 +1,5 @@
 SPECIFICATION Spec
-CONSTANTS MaxRound = 2  Mutation = "none"  EmitBeh = FALSE
+CONSTANTS MaxRound = 2  Mutation = "subsetreversed"  EmitBeh = FALSE
 CHECK_DEADLOCK FALSE
 INVARIANT FittedAfterConditioners
 INVARIANT IndependentFitImmediately
